@@ -8,8 +8,8 @@ HERE = os.path.dirname(os.path.abspath(__file__))
 
 BOUNDED = {
     "C01": "iteration / `tolist`, `save/load` (A: `np.savez/np.load`), dtype matrix",
-    "C02": "end-to-end composition against Python list indexing (the composition of the proved pieces is a paper argument)",
-    "C03": "end-to-end assignment against list assignment",
+    "C02": "end-to-end for selectors other than (row slice, column slice); column steps beyond the representatives of the e2e family only through the callee families",
+    "C03": "end-to-end assignment for selectors / value kinds other than (row slice, column slice) = scalar",
     "C04": "numpy's result-dtype table, dtype matrix",
     "C05": "`mean`, dtype matrix",
     "C06": "derived-vs-fresh comparison under every probe (representation independence end to end)",
